@@ -449,6 +449,7 @@ def targets(ctx):
         )
 
     return [
+        __import__("vf.props._inherit", fromlist=["target"]).target(__import__("vf.props._corpus", fromlist=["corpus"]).corpus()),
         Target("oneof_histories", ev, strategy=strat, quick=250, thorough=3000, time_quick=80),
         Target("oneof_histories_variants", ev, strategy=variant_strat(), quick=200, thorough=3000, time_quick=80),
         Target("oneof_state_machine", ev, stateful=stateful, quick=40, thorough=400),
